@@ -55,7 +55,7 @@ class Check(PropertyCheck):
         lines += ["q is_complete", "q makespan"]
         meta = {"family": family, "filter": "none" if f is None else "+".join(f) or "empty-composite",
                 "flexible": gen.is_flexible(jobs), "zero_dur": gen.has_zero(jobs), "accepted": n_acc,
-                "filter_style": rng.choice(["callable", "enum", "str"])}
+                "filter_style": rng.choice(["callable", "enum", "str", "lazy"])}
         return Scenario(lines, meta)
 
     def nontrivial(self, scenario, outs):
